@@ -596,6 +596,11 @@ def _relapse_any(case: dict) -> dict:
                     violations.append(viol("C02/same-message-two-workers:not-quiescent", f"{spec['name']}: {mtype} (step {k}) handled by two workers, W0 preempted after {s1}/{na} statements: queue not drained"))
                     continue
                 a, b = summarize(ref), summarize(run)
+                wit2 = oracles.double_plan_witness(run) if (mtype == "StartStage" and (a["wf"] != b["wf"] or a["stages"] != b["stages"])) else None
+                if wit2:
+                    # known mechanism (DESIGN 10.3 row 28): the second worker takes the claimed, not yet planned stage for a zombie
+                    violations.append(viol("C02/stage-planned-twice:zombie-replan-while-first-claimer-still-planning", f"{wit2}; {spec['name']}: StartStage (step {k}), W0 preempted after {s1}/{na} statements: reference {a['wf']} vs {b['wf']} {b['stages']}"))
+                    continue
                 if a["wf"] != b["wf"] or a["stages"] != b["stages"]:
                     violations.append(viol(f"C02/same-message-two-workers:outcome-differs:{mtype}", f"{spec['name']}: {mtype} (step {k}) handled by two workers, W0 preempted after {s1}/{na} statements: reference {a['wf']} {a['stages']} vs {b['wf']} {b['stages']}"))
                 tc = oracles.exec_counts(pre + run.ledger)
